@@ -480,6 +480,12 @@ def binop(op, a, b):
     return Op(op, a, b)
 
 
+_NEVER_NONE = frozenset((
+    "int_from_bytes", "len", "bitand", "bitor", "bitxor", "rshift", "lshift", "mul", "add", "sub", "mod", "floordiv", "fmt", "concat",
+    "int", "str", "m:hex", "m:decode", "m:strip", "m:rstrip", "m:lstrip", "m:upper", "m:lower", "chr", "ord", "b2i", "max", "min",
+    "count", "fv", "hex", "strdecode", "m:tobytes", "bytes", "abs"))
+
+
 def compare(op, a, b):
     if isinstance(a, Const) and isinstance(b, Const):
         try:
@@ -509,6 +515,9 @@ def compare(op, a, b):
                 return TRUE
         for x, y in ((a, b), (b, a)):
             if isinstance(x, (Ref, FuncV, ClassV, ModuleV)) and is_const(y) and y.v is None:
+                return Const(op in ("isnot", "ne"))
+            # a number / text computed from the data is not None either
+            if is_const(y) and y.v is None and (isinstance(x, Lin) or (isinstance(x, Op) and x.op in _NEVER_NONE)):
                 return Const(op in ("isnot", "ne"))
         if isinstance(a, Ite) and isinstance(b, Const):
             return ite(a.c, compare(op, a.a, b), compare(op, a.b, b))
